@@ -89,6 +89,10 @@ func registerDecCheck(id string, levels []int, expl string) {
 				// exact expansion is also checked on real parser output (many sequences per block, several drains per call)
 				return append(bfs(tier), acceptShards(id, tier)...)
 			}
+			if id == "C17" {
+				// n, k, l and Off must also be exact when the writer fails or writes short in the middle of a call
+				return append(bfs(tier), faultShards(id)(tier)...)
+			}
 			return bfs(tier)
 		},
 		Replay: func(raw json.RawMessage, col *engine.Collector) error {
@@ -96,6 +100,9 @@ func registerDecCheck(id string, levels []int, expl string) {
 				Level string `json:"level"`
 			}
 			json.Unmarshal(raw, &probe)
+			if probe.Level == "" && id == "C17" {
+				return replayFault(id, raw, col)
+			}
 			if probe.Level == "" {
 				return replayAccept(id, raw, col)
 			}
@@ -105,6 +112,9 @@ func registerDecCheck(id string, levels []int, expl string) {
 			m := decBounds(levels)(tier)
 			if id == "C04" {
 				m["parser_output_product"] = layerBounds(acceptLayersFor(id, tier))
+			}
+			if id == "C17" {
+				m["writer_fault_enumeration"] = Registry["C18"].Bounds(tier)
 			}
 			return m
 		},
